@@ -319,3 +319,310 @@ def _consts_of(formulas):
 
 def registry():
     return [MatchGlobRun(), MatchGlobRuns()]
+
+
+# ---- _match_base / match ---------------------------------------------------------------------------
+
+from bfg9000.path import Path as _Path, Root as _Root
+from bfg9000.platforms.basepath import BasePath as _BasePath
+
+EQN = T.RecDef('EQN', [Comps, Comps], T.Bool, lambda b, d: z3.BoolVal(True),
+               lambda b, d, k, prev: z3.And(prev, b[k] == d[k]))
+
+L_eqn_inst = Lemma('eqn_instance', [('b', Comps), ('d', Comps), ('i', T.Int), ('n', T.Int)],
+                   lambda b, d, i, n: z3.Implies(z3.And(EQN(b, d, n), i >= 0, i < n), b[i] == d[i]),
+                   induct=('nat', 'n'))
+
+# EQN / MATCHN only look at the positions below their bound: they are unchanged when the path grows
+L_eqn_ext = Lemma('eqn_unchanged_by_extension', [('b', Comps), ('d', Comps), ('x', Comps), ('n', T.Int)],
+                  lambda b, d, x, n: z3.Implies(n <= z3.Length(d), EQN(b, z3.Concat(d, x), n) == EQN(b, d, n)),
+                  induct=('nat', 'n'))
+L_matchn_ext = Lemma('matchn_unchanged_by_extension', [('ms', Matchers), ('d', Comps), ('x', Comps), ('off', T.Int), ('n', T.Int)],
+                     lambda ms, d, x, off, n: z3.Implies(z3.And(off >= 0, off + n <= z3.Length(d)),
+                                                         MATCHN(ms, z3.Concat(d, x), off, n) == MATCHN(ms, d, off, n)),
+                     induct=('nat', 'n'))
+
+
+def path_obj(cx, name, with_dir=True):
+    comps = z3.Const(name + '_comps', Comps)
+    o = Obj(_Path, {'root': Sym(z3.Const(name + '_root', T.Int), ('enum', _Root)),
+                    'directory': cx.bool(name + '_isdir'), '__comps': Sym(comps, ('seq', COMP_TY))})
+    return o
+
+
+class PathSplit(Contract):
+    """BasePath.split() as seen by the matcher: the list of path components (abstract)."""
+    target = 'bfg9000/platforms/basepath.py::BasePath.split'
+    properties = ()
+
+    def apply_at_call(self, I, bound, site, frame):
+        o = bound['self']
+        if not (isinstance(o, Obj) and '__comps' in o.attrs):
+            from pyvc.interp import OutOfSubset
+            raise OutOfSubset('split() of a path without abstract components')
+        return o.attrs['__comps']
+
+
+def patsem(base, glob, comps, L):
+    """The documented semantics of a compiled pattern (base dir, runs separated by **) on a component list."""
+    lb = z3.Length(base)
+    n = z3.Length(comps)
+    ms0 = run_ms(glob[0])
+    k0 = z3.Length(ms0)
+    rest = z3.If(L == 1, n == lb + k0, SEM(glob, comps, n, lb + k0, L - 1))
+    return z3.And(n >= lb + k0, EQN(base, comps, lb), MATCHN(ms0, comps, lb, k0), rest)
+
+
+class MatchBase(Contract):
+    target = 'bfg9000/glob.py::PathGlob._match_base'
+    properties = ('C11',)
+
+    def cases(self):
+        return ['check', 'skip']
+
+    def params(self, cx, case):
+        selfv = Obj(PathGlob, {'base': path_obj(cx, 'base')})
+        return {'self': selfv, 'path': path_obj(cx, 'path'), 'skip': case == 'skip'}
+
+    def facts(self, a):
+        b = a.self.attrs['base'].attrs['__comps'].e
+        d = a.path.attrs['__comps'].e
+        lb, n = z3.Length(b), z3.Length(d)
+        avail = z3.If(lb < n, lb, n)
+        same_root = MD.lift(a.path.attrs['root']) == MD.lift(a.self.attrs['base'].attrs['root'])
+        return b, d, lb, n, avail, same_root
+
+    def ensures(self, a, r):
+        res, nb = r
+        b, d, lb, n, avail, same_root = self.facts(a)
+        skip = T.zbool(MD.lift(a.skip))
+        full = z3.Or(skip, z3.And(same_root, n >= lb, EQN(b, d, lb)))
+        diverges = z3.And(z3.Not(skip), same_root, z3.Not(EQN(b, d, avail)))
+        if res is Result.yes:
+            verdict = full
+        elif res is Result.never:
+            verdict = diverges
+        else:
+            verdict = z3.And(z3.Not(full), z3.Not(diverges))
+        return {'verdict': verdict,
+                'rest_view': z3.And(nb.attrs['data'].e == d, MD.lift(nb.attrs['start']) == avail,
+                                    MD.lift(nb.attrs['stop']) == n)}
+
+    def loops(self):
+        def inv(I, loc, i, seq):
+            b, d, lb, n, avail, same_root = self.facts(self.cur)
+            return {'prefix_equal': z3.And(i <= avail, EQN(b, d, i))}
+        return {('PathGlob._match_base', 1): LoopInv(inv)}
+
+    def proof(self, p, a, r, name, case):
+        if name == 'verdict':
+            b, d, lb, n, avail, same_root = self.facts(a)
+            for nme, i in sorted(_consts_of(p.assumptions).items()):
+                if nme.startswith('i_PathGlob._match_base.'):
+                    p.use(L_eqn_inst.inst(b=b, d=d, i=i, n=avail))
+        p.qed()
+
+    def result_value(self, I, a):
+        res = list(Result)[I.choose(3)]
+        nb = Obj(list_view, {'data': a.path.attrs['__comps'], 'start': fresh_sym('mb_start', 'int'),
+                             'stop': fresh_sym('mb_stop', 'int')})
+        return (res, nb)
+
+
+class Match(Contract):
+    """PathGlob.match: yes exactly on the documented semantics (+ type); never only if no extension can match."""
+    target = 'bfg9000/glob.py::PathGlob.match'
+    properties = ('C11',)
+
+    def cases(self):
+        return ['%s/%s' % (t, s) for t in ('file', 'dir', 'any') for s in ('check', 'skip')]
+
+    def params(self, cx, case):
+        t, s = case.split('/')
+        g = z3.Const('glob', Runs)
+        cx.ghost('ext', z3.Const('ext', Comps))
+        selfv = Obj(PathGlob, {'base': path_obj(cx, 'base'), 'glob': Sym(g, ('seq', RUN_TY)),
+                               'type': G.Glob.Type[t]})
+        return {'self': selfv, 'path': path_obj(cx, 'path'), 'skip_base': s == 'skip'}
+
+    def facts(self, a):
+        g = a.self.attrs['glob'].e
+        b = a.self.attrs['base'].attrs['__comps'].e
+        d = a.path.attrs['__comps'].e
+        same_root = MD.lift(a.path.attrs['root']) == MD.lift(a.self.attrs['base'].attrs['root'])
+        return g, b, d, z3.Length(g), same_root
+
+    def requires(self, a):
+        g, b, d, L, same_root = self.facts(a)
+        # skip_base is only used by callers that have already established the base (find._find_files walks
+        # below the base directory of the single pattern): stated as a precondition
+        base_ok = z3.And(same_root, z3.Length(d) >= z3.Length(b), EQN(b, d, z3.Length(b)))
+        pre = z3.And(L >= 1, LENOK(g, L))
+        if a.skip_base is True:
+            pre = z3.And(pre, base_ok)
+        return pre
+
+    def ensures(self, a, r):
+        g, b, d, L, same_root = self.facts(a)
+        isdir = T.zbool(MD.lift(a.path.attrs['directory']))
+        ty = a.self.attrs['type']
+        type_ok = {'file': z3.Not(isdir), 'dir': isdir, 'any': z3.BoolVal(True)}[ty.name]
+        sem = z3.And(same_root, patsem(b, g, d, L))
+        sem_ext = z3.And(same_root, patsem(b, g, z3.Concat(d, a.ext), L))
+        if r is Result.yes:
+            return {'yes_only_if_selected': z3.And(sem, type_ok)}
+        if r is Result.no:
+            return {'no_only_if_not_selected': z3.Not(z3.And(sem, type_ok))}
+        return {'never_only_if_not_selected': z3.Not(sem),
+                'never_only_if_no_descendant_can_match': z3.Implies(z3.Length(a.ext) > 0, z3.Not(sem_ext))}
+
+    def proof(self, p, a, r, name, case):
+        g, b, d, L, same_root = self.facts(a)
+        lb = z3.Length(b)
+        n = z3.Length(d)
+        avail = z3.If(lb < n, lb, n)
+        ms0 = run_ms(g[0])
+        k0 = z3.Length(ms0)
+        avail0 = z3.If(k0 < n - lb, k0, n - lb)
+        if name == 'never_only_if_no_descendant_can_match':
+            x = a.ext
+            p.use(L_eqn_ext.inst(b=b, d=d, x=x, n=avail))
+            p.use(L_eqn_ext.inst(b=b, d=d, x=x, n=lb))
+            p.use(L_matchn_ext.inst(ms=ms0, d=d, x=x, off=lb, n=avail0))
+            p.use(L_matchn_ext.inst(ms=ms0, d=d, x=x, off=lb, n=k0))
+            dx = z3.Concat(d, x)
+            p.use(L_eqn_mono.inst(b=b, d=dx, i=avail, n=lb - avail))
+            p.use(L_matchn_mono.inst(ms=ms0, d=dx, off=lb, i=avail0, n=k0 - avail0))
+        p.use(L_eqn_mono.inst(b=b, d=d, i=avail, n=lb - avail))
+        p.use(L_matchn_mono.inst(ms=ms0, d=d, off=lb, i=avail0, n=k0 - avail0))
+        p.qed()
+
+
+# a longer prefix condition implies a shorter one
+L_eqn_mono = Lemma('eqn_antitone', [('b', Comps), ('d', Comps), ('i', T.Int), ('n', T.Int)],
+                   lambda b, d, i, n: z3.Implies(z3.And(n >= 0, EQN(b, d, i + n)), EQN(b, d, i)), induct=('nat', 'n'))
+L_matchn_mono = Lemma('matchn_antitone', [('ms', Matchers), ('d', Comps), ('off', T.Int), ('i', T.Int), ('n', T.Int)],
+                      lambda ms, d, off, i, n: z3.Implies(z3.And(n >= 0, MATCHN(ms, d, off, i + n)), MATCHN(ms, d, off, i)),
+                      induct=('nat', 'n'))
+
+
+def registry():
+    return [MatchGlobRun(), MatchGlobRuns(), PathSplit(), MatchBase(), Match()]
+
+
+# ---- _is_glob: which components are patterns ----------------------------------------------------------
+
+from pyvc import regex as RX
+FNMATCH_SPECIAL = T.CharClass.of('*?[', 'fnmatch-special')
+
+
+def code_glob_class():
+    fam = RX.classify(PathGlob._glob_ex.pattern)
+    if not isinstance(fam, RX.F1):
+        from pyvc.interp import OutOfSubset
+        raise OutOfSubset('PathGlob._glob_ex is no longer a single character class')
+    return fam.cls
+
+
+L_glob_class = Lemma('glob_class_is_fnmatch_special', [('u', T.Str)],
+                     lambda u: (MD.any_fold(code_glob_class()).state((0,), u)[0] == 1) ==
+                               (MD.any_fold(FNMATCH_SPECIAL).state((0,), u)[0] == 1),
+                     induct=('snoc', 'u'))
+
+
+class IsGlob(Contract):
+    """A component is treated as a pattern exactly when it contains a character that fnmatch interprets
+    (`*`, `?`, `[`); otherwise it is compared literally (fnmatch of a string without these characters is
+    string equality: library assumption)."""
+    target = 'bfg9000/glob.py::PathGlob._is_glob'
+    properties = ('C11',)
+
+    def params(self, cx, case):
+        return {'cls': PathGlob, 's': cx.str('s')}
+
+    def ensures(self, a, r):
+        s = MD.sym_str(a.s)
+        return {'pattern_iff_fnmatch_special': T.zbool(MD.lift(r)) == (MD.any_fold(FNMATCH_SPECIAL).state((0,), s)[0] == 1)}
+
+    def proof(self, p, a, r, name, case):
+        p.use(L_glob_class.inst(u=MD.sym_str(a.s)))
+        p.qed()
+
+    def native_params(self, case):
+        return ['s']
+
+    def native_alphabet(self):
+        return 'a*?[]!.'
+
+    def native_build(self, case, raw):
+        return {'s': raw['s']}, Args({'cls': PathGlob, 's': raw['s']})
+
+    def native_call(self, case, call_args):
+        return PathGlob._is_glob(call_args['s'])
+
+
+# ---- bounded reference check of the whole matcher (compile + match) -------------------------------------
+
+from contracts.bounded_cmd import Bounded
+import fnmatch as _fnmatch
+import itertools as _it
+
+
+def ref_match(pattern_bits, comps):
+    """Documented semantics on component lists: `**` = zero or more components, other bits match one."""
+    if not pattern_bits:
+        return not comps
+    head, rest = pattern_bits[0], pattern_bits[1:]
+    if head == '**':
+        return any(ref_match(rest, comps[i:]) for i in range(len(comps) + 1))
+    if not comps:
+        return False
+    return _fnmatch.fnmatchcase(comps[0], head) and ref_match(rest, comps[1:])
+
+
+class GlobReference(Bounded):
+    """Real PathGlob (constructor, _compile_glob, match) against the reference semantics, exhaustively up to a
+    bound; also: `never` implies that no extension by up to two components matches."""
+    target = 'bfg9000/glob.py::PathGlob.match'
+    properties = ('C11',)
+    reason = 'PathGlob.__init__/_compile_glob build nested lists of closures (outside the subset); bounded cross-check of the whole pipeline'
+    BITS = ['**', 'a*', 'b', 'v?', '[ab]x']
+    COMPS = ['a1', 'b', 'v1', 'ax', 'zz']
+
+    def native_inputs(self, case, alphabet, maxlen, rng, extra=0):
+        pats = []
+        for n in range(1, 5):
+            for t in _it.product(self.BITS, repeat=n):
+                if not any(b != 'b' for b in t):
+                    continue
+                pats.append(t)
+        paths = [t for n in range(0, 5) for t in _it.product(self.COMPS[:4], repeat=n)]
+        paths = rng.sample(paths, 60) if len(paths) > 60 else paths
+        for pt in pats:
+            for base in ((), ('b',)):
+                yield {'pattern': list(base + pt), 'paths': [list(p) for p in rng.sample(paths, 12)]}
+
+    def native_check(self, case, raw):
+        from bfg9000.glob import PathGlob as PG
+        from bfg9000.path import Path, Root
+        from bfg9000.exceptions import NonGlobError
+        bits = raw['pattern']
+        try:
+            g = PG('/'.join(bits), type='*')
+        except NonGlobError:
+            return self.fail(case, raw, 'pattern_with_wildcards_is_a_glob')
+        for comps in raw['paths']:
+            p = Path('/'.join(comps) or '.', Root.srcdir)
+            got = g.match(p)
+            want = ref_match(bits, comps)
+            if bool(got) != want:
+                return self.fail(case, raw, 'yes_iff_reference_semantics', path=comps, got=got.name, expected=want)
+            if got is PG.Result.never:
+                for ext in _it.chain(_it.product(self.COMPS, repeat=1), _it.product(self.COMPS[:3], repeat=2)):
+                    if ref_match(bits, comps + list(ext)):
+                        return self.fail(case, raw, 'never_prunes_nothing_that_matches', path=comps, extension=list(ext))
+        return True
+
+
+def registry():
+    return [MatchGlobRun(), MatchGlobRuns(), PathSplit(), MatchBase(), Match(), IsGlob(), GlobReference()]
